@@ -530,6 +530,10 @@ def run(ctx) -> None:
     for name, fn in (("V9", rule_V9), ("V1", rule_V1), ("V1b", rule_V1b), ("V2", rule_V2), ("V3", rule_V3), ("V4", rule_V4), ("V5", rule_V5), ("V6", rule_V6), ("D3", presence.rule_D3), ("V7", presence.rule_V7), ("V8", rule_V8)):
         ctx.rules_run.append(name)
         fn(ctx)
+    from . import c20 as _c20
+    ctx.rules_run += ["H2", "H4"]
+    _c20.rule_H2(ctx)           # enum values inside a message are copied through Enum's own hooks: they hand back the member itself ...
+    _c20.rule_H4(ctx)           # ... and what pickling (the fallback of copy) passes on rebuilds any number, declared or not
     ctx.rules_run.append("D2")
     presence.rule_D2(ctx)       # pickle goes through the encoding: what is set (an optional field at its empty value, a selected member) has to be emitted
     ctx.assume("external callees are pure unless in the mutator list; aliases arise only by name binding")
